@@ -964,6 +964,10 @@ theorem scopedKind_facts {k : String} (h : Gen.scopedKinds.any (fun e => e.2 == 
 theorem plainVar_notKeyword {n : String} (h : plainVar n = true) : isKeyword n = false := by
   simp only [plainVar, Bool.and_eq_true, Bool.not_eq_true'] at h; exact h.2
 
+theorem nameVar_notKeyword {n : String} (h : nameVar n = true) : isKeyword n = false := by
+  simp only [nameVar, plainVar, escapedVar, Bool.or_eq_true, Bool.and_eq_true, Bool.not_eq_true'] at h
+  rcases h with h | h <;> exact h.2
+
 theorem plainRun_ne_us {n : String} (h : isPlainRun n.toList = true) : n ≠ "_" := by
   intro e; subst e; exact absurd h (by decide)
 
@@ -1001,7 +1005,7 @@ theorem coreExp_wf : (e : PExp) → coreExp e = true → WFx e
     | some ns =>
       simp only [hd, Bool.and_eq_true, List.all_eq_true, decide_eq_true_eq, beq_iff_eq] at h
       exact ⟨ns, rfl, h.1, h.2⟩
-  | .var n, h => by simp only [coreExp] at h; simp only [WFx]; exact plainVar_notKeyword h
+  | .var n, h => by simp only [coreExp] at h; simp only [WFx]; exact nameVar_notKeyword h
   | .cvar n idx, h => by
     simp only [coreExp, Bool.and_eq_true, Bool.not_eq_true'] at h
     simp only [WFx]
@@ -1047,7 +1051,9 @@ theorem coreIdx_wf : (es : List PExp) → coreIdx es = true → WFx.WFidx es
     simp only [coreIdx, Bool.and_eq_true] at h
     simp only [WFx.WFidx]
     refine ⟨fun hc => ?_, coreIdx_wf es h.2⟩
-    rw [plainRun_no_us h.1] at hc; exact absurd hc (by decide)
+    rcases Bool.or_eq_true _ _ ▸ h.1 with hp | he
+    · rw [plainRun_no_us hp] at hc; exact absurd hc (by decide)
+    · simp only [escapedVar, Bool.and_eq_true, Bool.not_eq_true'] at he; exact he.2
   | .int v :: es, h => by
     simp only [coreIdx, Bool.and_eq_true] at h
     simp only [WFx.WFidx]; exact ⟨coreExp_wf _ h.1, coreIdx_wf es h.2⟩
@@ -1114,7 +1120,7 @@ end
 
 theorem coreName_wf {v : CName} (h : coreName v = true) : WFname v := by
   cases v with
-  | plain n => exact plainVar_notKeyword h
+  | plain n => exact nameVar_notKeyword h
   | compound n idx =>
     simp only [coreName, Bool.and_eq_true, Bool.not_eq_true'] at h
     exact ⟨by intro e; subst e; simp at h, coreIdx_wf idx h.2⟩
